@@ -223,7 +223,7 @@ PROPS = {
         "num": 18,
         "vo": ["Properties/C18.vo"],
         "rule": "exhaustive: all sequences of length<=2, and all length-3 continuations after creating A,B (thorough: length-4 after A,B,C), over an alphabet of create/delete/"
-                "export-all/add-rule/import(to,from) on 3 user modules; random sequences of 3..7 ops over 4 module names (incl. MAIN), 3 rule names, 6 patterns "
+                "export-all/add-rule/import(to,from) on 3 user modules; re-export chains (two re-exporting imports with independent patterns into one module, a third module importing it; 1500 quick); random sequences of 3..7 ops over 4 module names (incl. MAIN), 3 rule names, 6 patterns "
                 "(*, prefix, suffix, exact, ?ALL), Specific exports, all import types, re-exports; non-trivial = at least one accepted import",
         "level_text": "Proved for every operation sequence: a refused operation changes nothing; self-imports are refused; every declared import names an existing module "
                 "(invariant through create/delete/export/add-rule/import); hence visibility queries on existing modules never fail, and is_rule_visible equals the declarative "
@@ -286,7 +286,7 @@ PROPS = {
         "vo": ["Properties/C16.vo"],
         "rule": "exhaustive 23x23 value-pair matrix (ints, floats incl. 0.0/-0.0/NaN/-NaN/inf/0.1, numeric-looking and keyword-looking strings, booleans, arrays incl. nested -0.0/NaN, null) for alpha "
                 "(index created before and after insert, dropped), beta (add a, lookup b) and memo (node constant a/b on fact sets a/b); random histories of 3..10 ops for alpha (insert/create/drop/filter on 2 fields), "
-                "beta (add/remove/lookup), memo (2..10 evaluations over look-alike fact sets) and the conclusion index (add enabled/disabled rules with 0..2 Set actions, remove, find with 9 operator spellings); "
+                "beta (add/remove/lookup), memo (2..10 evaluations over look-alike fact sets; for every ordered pair of pool values the same node on {f1:a,f2:b} and {f1:b,f2:a}) and the conclusion index (add enabled/disabled rules with 0..2 Set actions, remove, find with 9 operator spellings); "
                 "non-trivial = label not 'trivial'",
         "level_text": "Proved: for EVERY history of insertions, index creations, drops and filters the alpha-memory answers are those of the index-free scan (all value shapes, NaN, signed zeros, nested arrays; by an invariant "
                 "over all indexes: every bucket, filtered, is the scan, with index keys an equivalence that contains ==); Debug-equal values are interchangeable for ==; a memoised evaluation equals direct evaluation after any "
